@@ -40,6 +40,10 @@ type Phase struct {
 	Weight     float64            // share of the check\'s time budget relative to the other phases (0 = 1)
 	Race       bool               // run this phase in the race-detector build of the checker ($VERIF_RACE_BIN)
 	Rule       string             // how cases are enumerated, what makes an outcome distinct
+	// OncePerProcess: the phase runs on the unmodified build, whose process-wide state cannot be reset, so
+	// a second run of a case in the same process is not the same experiment (first-use effects): replays
+	// run the case once per fresh process instead of twice in one
+	OncePerProcess bool
 }
 
 // PhaseCtx lets custom engines report statistics and failures.
@@ -897,7 +901,10 @@ func runReplay(ck *Check, tier universe.Tier, path string, verbose bool) int {
 	quiet := os.Getenv("VERIF_QUIET") != ""
 	// replay twice: the same schedule must produce the same observation
 	f1, o1 := explore.ReplayOnce(rf.Choices, ph.Body)
-	f2, o2 := explore.ReplayOnce(rf.Choices, ph.Body)
+	f2, o2 := f1, o1
+	if !ph.OncePerProcess {
+		f2, o2 = explore.ReplayOnce(rf.Choices, ph.Body)
+	}
 	if (f1 == nil) != (f2 == nil) || o1 != o2 {
 		fmt.Fprintf(os.Stderr, "HARNESS-ERROR: replay is not deterministic (%v/%v, %q/%q)\n", f1 != nil, f2 != nil, o1, o2)
 		return 4
